@@ -44,6 +44,7 @@ func newExec(s *scn.Scenario, opt Options) *exec {
 	x := &exec{s: s, res: &Result{Stats: NewStats()}, solos: map[string]Outcome{}, usedCompared: map[int]int{}}
 	x.sim = &Sim{cfg: s.Cfg, st: x.res.Stats, trace: opt.Trace}
 	x.sim.current.Store(-1)
+	useNS = s.Cfg.NS
 	for i, d := range s.Docs {
 		x.docs = append(x.docs, world.Build(i, d))
 	}
